@@ -131,6 +131,20 @@ fn fn_schema(export: &str, receiver: bool) -> FunctionSchemaInit {
     }
 }
 
+/// the Relay package with package royalties: every function / method of blueprint Relay gets an entry (Free unless
+/// listed in `royalties`)
+pub fn package_definition_with_royalties(royalties: &[(&str, RoyaltyAmount)]) -> PackageDefinition {
+    let mut def = package_definition(None);
+    let relay = def.blueprints.get_mut(RELAY).unwrap();
+    let mut cfg = index_map_new();
+    for name in relay.schema.functions.functions.keys() {
+        let amount = royalties.iter().find(|(n, _)| n == name).map(|(_, a)| *a).unwrap_or(RoyaltyAmount::Free);
+        cfg.insert(name.clone(), amount);
+    }
+    relay.royalty_config = PackageRoyaltyConfig::Enabled(cfg);
+    def
+}
+
 /// `prot_rules`: access rules of the functions f0.. of blueprint Prot (None: blueprint Prot is left out)
 pub fn package_definition(prot_rules: Option<&[AccessRule]>) -> PackageDefinition {
     let mut functions = index_map_new();
@@ -561,8 +575,12 @@ pub struct World {
 
 impl World {
     pub fn new() -> World {
+        Self::with_definition(package_definition(None))
+    }
+
+    pub fn with_definition(definition: PackageDefinition) -> World {
         let mut ledger = new_ledger();
-        let pkg = publish(&mut ledger, package_definition(None)).expect("publish relay package");
+        let pkg = publish(&mut ledger, definition).expect("publish relay package");
         let (key, _, account) = ledger.new_account(false);
         let fres = ledger.create_fungible_resource(dec!(1000), 18, account);
         let nres = ledger.create_non_fungible_resource(account); // ids #1#, #2#, #3#
@@ -578,7 +596,7 @@ impl World {
             .withdraw_non_fungibles_from_account(
                 account,
                 nres,
-                [NonFungibleLocalId::integer(1), NonFungibleLocalId::integer(2)],
+                [NonFungibleLocalId::integer(1), NonFungibleLocalId::integer(2), NonFungibleLocalId::integer(3)],
             )
             .take_all_from_worktop(nres, "n")
             .call_method_with_name_lookup(bank, "deposit", |l| (l.bucket("n"),))
